@@ -12,7 +12,8 @@ mkdir -p "$S/verif/work" "$S/verif/evidence/replays"
 if [ ! -d "$S/repo" ]; then git -C /repo worktree add -q --detach "$S/repo" "$HEAD" || exit 2; fi
 ( cd "$S/repo" && git checkout -q --detach "$HEAD" && git checkout -q -- . && git clean -qfd ) || exit 2
 if [ -n "$(git -C /repo status --porcelain --untracked-files=no)" ]; then echo "slot_eval: /repo has uncommitted edits; the slot uses HEAD"; fi
-rsync -a --delete --exclude target /verif/harness/ "$S/harness/"
+# HARNESS_SRC: evaluate with a development copy of the harness instead of the committed one
+rsync -a --delete --exclude target "${HARNESS_SRC:-/verif/harness}/" "$S/harness/"
 sed -i "s#\"/repo/#\"$S/repo/#g" "$S/harness/Cargo.toml"
 cp /repo/Cargo.lock "$S/harness/Cargo.lock"
 cp /verif/known_findings.json "$S/verif/known_findings.json"
